@@ -721,6 +721,7 @@ func preamble() []string {
 		"(declare-fun f2u64 (Int Real) Int)", "(declare-fun f2u32 (Int Real) Int)", "(declare-fun f2u16 (Int Real) Int)", "(declare-fun f2u8 (Int Real) Int)",
 		"(define-fun MAXF () Real 179769313486231570814527423731704356798070567525844996598917476803157260780028538760589558632766878171540458953514382464234321326889464182768467546703537516986049910576551282076245490090389328944075868508455133942304583236903222948165808559332123348274797826204144723168738177180919299881250404026184124858368.0)",
 		"(define-fun absi ((x Int)) Int (ite (>= x 0) x (- x)))",
+		"(define-fun-rec sumto ((a (Array Int Int)) (n Int)) Int (ite (<= n 0) 0 (+ (sumto a (- n 1)) (select a (- n 1)))))",
 		"(define-fun tdiv ((a Int) (b Int)) Int (ite (>= a 0) (ite (> b 0) (div a b) (- (div a (- b)))) (ite (> b 0) (- (div (- a) b)) (div (- a) (- b)))))",
 		"(define-fun tmod ((a Int) (b Int)) Int (- a (* b (tdiv a b))))",
 	}
